@@ -84,7 +84,11 @@ func (c *Conn) runReader() error {
 
 		msg = append(msg, buff...)
 		if len(buff) >= 3 && bytes.Equal(buff[0:3], []byte(endOfMsgTag)) {
-			c.reader <- msg
+			select {
+			case c.reader <- msg:
+			case <-c.ctx.Done():
+				return nil
+			}
 			msg = []byte{}
 		}
 	}
